@@ -32,8 +32,7 @@ def parse_block_spoiler(block: "BlockParser", m: Match[str], state: "BlockState"
     # scan children state
     child = state.child_state(text)
     if state.depth() >= block.max_nested_level - 1:
-        rules = list(block.block_quote_rules)
-        rules.remove("block_quote")
+        rules = [r for r in block.block_quote_rules if r not in ("block_quote", "list")]
     else:
         rules = block.block_quote_rules
 
